@@ -19,6 +19,13 @@ SHARD = 250
 CASE_TIMEOUT = 30
 
 from props import _c03_world as W  # noqa: E402  (no psutil import at module level)
+from props import _c03_gen as _GEN  # noqa: E402
+
+
+def gen_tables(impl_dir, out_dir):
+    """Translate wrap_exceptions / _is_zombie / _raise_if_zombie / _raise_if_not_alive of the tree under check into
+    coq/Gen/C03_Tables.v (fail closed: _c03_gen.TranslateError); coq/C03/ProofsGen.v proves them equal to Model.v's."""
+    _GEN.gen_tables(impl_dir, out_dir)
 
 # ------------------------------------------------------------------ model scripts per public method
 SCRIPTS = {
@@ -80,7 +87,14 @@ TRUSTED = ["correspondence harness props/C03.py + props/_c03_world.py (fake proc
            "paths fails with ENOENT (ESRCH on read / system call); deny = that access alone is refused; zombie = stat says Z, "
            "exe/cwd ENOENT, cmdline/smaps empty, fd and io EACCES",
            "hand transcription of each method's try/except structure into an access script (coq/C03/Model.v), tied to the "
-           "code by comparing complete access sequences and outcomes on every enumerated fault"]
+           "code by comparing complete access sequences and outcomes on every enumerated fault -- EXCEPT the exception-"
+           "translation layer (wrap_exceptions.wrapper, Process._is_zombie, _raise_if_zombie, _raise_if_not_alive, "
+           "_readlink, exe, cwd), which is translated from the current source on every run (props/_c03_gen.py -> "
+           "coq/Gen/C03_Tables.v) and proved equal to the model's wrapped_at / raise_if_zombie / raise_if_not_alive / "
+           "readlink_fb / i_exe / i_cwd (coq/C03/ProofsGen.v)",
+           "the translator props/_c03_gen.py (Python ast -> PyGen.v terms; fails closed on any unknown shape) and the "
+           "meaning given to its statement language by coq/C03/PyGen.v:compile (except-class extents, os.path.exists = "
+           "os.stat with any OSError meaning False, `try: return E` = `try: E / else: return`)"]
 ASSUMPTIONS = ["the first read of an opened procfs file is the only read access point (files are read with one read(2) into a "
                "32 KiB buffer); partial reads are outside the fault model",
                "data returned by a successful access is well formed (parsing of malformed content is C06/C12/C13/C14)",
@@ -565,8 +579,14 @@ MANIFEST = {
             "table, and refuted theorems about the code before the three repairs. Tie to the code: every access index x "
             "fault x base kind -- and two-call histories on one object -- is run on the real psutil and outcome + complete access "
             "sequence are compared; the native getpriority path (errno explicit) is proved independent of the thread's "
-            "earlier failures and run on real children at every nice value.",
+            "earlier failures and run on real children at every nice value. Round 2: wrap_exceptions.wrapper, "
+            "Process._is_zombie / _raise_if_zombie / _raise_if_not_alive / _readlink / exe / cwd are TRANSLATED from the "
+            "source under check on every run (fail-closed ast translator props/_c03_gen.py -> coq/Gen/C03_Tables.v, "
+            "statement language coq/C03/PyGen.v) and proved equal, for every process in focus and every decorated "
+            "method body, to the model's wrapped_at / raise_if_zombie / raise_if_not_alive / readlink_fb / i_exe / "
+            "i_cwd (C03_gen_* theorems): an edit of clause order, caught classes, probes or raised error breaks a proof.",
     "note": "Trusted: Coq kernel + vm_compute; the fault model (Spec.v base_ok / Model.v answer); hand-written scripts "
-            "(tied by exhaustive fault enumeration of access sequences); harness shim. No call is oracle-only (as_dict() "
+            "(tied by exhaustive fault enumeration of access sequences; the exception-translation layer and exe/cwd by "
+            "source translation, trusting props/_c03_gen.py and PyGen.v:compile); harness shim. No call is oracle-only (as_dict() "
             "falls back to oracle-only if its attribute order cannot be determined).",
 }
